@@ -533,49 +533,77 @@ def evalLit (dev : Dev) (v : Val) : M Val :=
     let h ← getHeap
     copyVal (h.length + 1) v
 
-/-- dispatch of a modelled function; `ev a at` evaluates an argument -/
-def evalFn (env : Env) (ev : Arg → Val → M Val) (root at_ : Val) (f : Bytes) (args : List Arg) : M Val :=
+/-- what a registered name stands for (aliases share a kind, as they share a Go function; `set`/`setall`
+and `del`/`delall` are different Go functions — jp.SetOne/Set, jp.DelOne/Del — that agree on the
+simple paths of this model) -/
+inductive FnKind where
+  | sum | arith (op : ArithOp) | mod | cmp (op : CmpOp) | equal | neq | and | or | not | cond
+  | get | getall | set | del | each | pathOf (isAt : Bool) | asm | quote | list | nth | size
+  | pred (p : Val → Bool)
+
+/-- the modelled names -/
+def fnTable : List (Bytes × FnKind) :=
+  [(b!"sum", .sum), (b!"+", .sum),
+   (b!"dif", .arith .dif), (b!"-", .arith .dif),
+   (b!"product", .arith .product), (b!"*", .arith .product),
+   (b!"quotient", .arith .quotient), (b!"/", .arith .quotient),
+   (b!"mod", .mod),
+   (b!"lt", .cmp .lt), (b!"<", .cmp .lt), (b!"lte", .cmp .lte), (b!"<=", .cmp .lte),
+   (b!"gt", .cmp .gt), (b!">", .cmp .gt), (b!"gte", .cmp .gte), (b!">=", .cmp .gte),
+   (b!"equal", .equal), (b!"eq", .equal), (b!"==", .equal), (b!"neq", .neq), (b!"!=", .neq),
+   (b!"and", .and), (b!"or", .or), (b!"not", .not), (b!"cond", .cond),
+   (b!"get", .get), (b!"getall", .getall), (b!"set", .set), (b!"setall", .set),
+   (b!"del", .del), (b!"delall", .del), (b!"each", .each),
+   (b!"at", .pathOf true), (b!"root", .pathOf false), (b!"asm", .asm),
+   (b!"quote", .quote), (b!"list", .list), (b!"nth", .nth), (b!"size", .size),
+   (b!"array?", .pred Val.isArr), (b!"bool?", .pred Val.isBool), (b!"map?", .pred Val.isMap),
+   (b!"nil?", .pred Val.isNull), (b!"null?", .pred Val.isNull), (b!"num?", .pred Val.isNum),
+   (b!"string?", .pred Val.isStr)]
+
+def lookupKind : List (Bytes × FnKind) → Bytes → Option FnKind
+  | [], _ => none
+  | (n, k) :: r, f => if f = n then some k else lookupKind r f
+
+def fnKind (f : Bytes) : Option FnKind := lookupKind fnTable f
+
+/-- one modelled function applied to its (unevaluated) arguments; `ev a at` evaluates an argument -/
+def evalKind (env : Env) (ev : Arg → Val → M Val) (root at_ : Val) (k : FnKind) (args : List Arg) : M Val :=
   let e := fun a => ev a at_
-  if f = b!"sum" || f = b!"+" then fnSum e args
-  else if f = b!"dif" || f = b!"-" then fnArith env.dev .dif e args
-  else if f = b!"product" || f = b!"*" then fnArith env.dev .product e args
-  else if f = b!"quotient" || f = b!"/" then fnArith env.dev .quotient e args
-  else if f = b!"mod" then fnMod e args
-  else if f = b!"lt" || f = b!"<" then fnCmp env.dev .lt e args
-  else if f = b!"lte" || f = b!"<=" then fnCmp env.dev .lte e args
-  else if f = b!"gt" || f = b!">" then fnCmp env.dev .gt e args
-  else if f = b!"gte" || f = b!">=" then fnCmp env.dev .gte e args
-  else if f = b!"equal" || f = b!"eq" || f = b!"==" then do
+  match k with
+  | .sum => fnSum e args
+  | .arith op => fnArith env.dev op e args
+  | .mod => fnMod e args
+  | .cmp op => fnCmp env.dev op e args
+  | .equal => do
     let b ← fnEqual env.dev e args
     pure (.bool b)
-  else if f = b!"neq" || f = b!"!=" then do
+  | .neq => do
     let b ← fnEqual env.dev e args
     pure (.bool (!b))
-  else if f = b!"and" then fnAnd e args
-  else if f = b!"or" then fnOr e args
-  else if f = b!"not" then fnNot e args
-  else if f = b!"cond" then fnCond env.dev e args
-  else if f = b!"get" then fnGet env e root at_ args
-  else if f = b!"getall" then fnGetall env e root at_ args
-  else if f = b!"set" || f = b!"setall" then fnSet e root at_ args
-  else if f = b!"del" || f = b!"delall" then fnDel root at_ args
-  else if f = b!"each" then fnEach ev at_ args
-  else if f = b!"at" then fnPathOf true e args
-  else if f = b!"root" then fnPathOf false e args
-  else if f = b!"asm" then fnAsm ev args at_
-  else if f = b!"quote" then do
+  | .and => fnAnd e args
+  | .or => fnOr e args
+  | .not => fnNot e args
+  | .cond => fnCond env.dev e args
+  | .get => fnGet env e root at_ args
+  | .getall => fnGetall env e root at_ args
+  | .set => fnSet e root at_ args
+  | .del => fnDel root at_ args
+  | .each => fnEach ev at_ args
+  | .pathOf isAt => fnPathOf isAt e args
+  | .asm => fnAsm ev args at_
+  | .quote => do
     let v ← fnQuote args
     evalLit env.dev v
-  else if f = b!"list" then fnList e args
-  else if f = b!"nth" then fnNth e args
-  else if f = b!"size" then fnSize e args
-  else if f = b!"array?" then fnPred Val.isArr e args
-  else if f = b!"bool?" then fnPred Val.isBool e args
-  else if f = b!"map?" then fnPred Val.isMap e args
-  else if f = b!"nil?" || f = b!"null?" then fnPred Val.isNull e args
-  else if f = b!"num?" then fnPred Val.isNum e args
-  else if f = b!"string?" then fnPred Val.isStr e args
-  else stop .unmodelled
+  | .list => fnList e args
+  | .nth => fnNth e args
+  | .size => fnSize e args
+  | .pred p => fnPred p e args
+
+/-- dispatch by name -/
+def evalFn (env : Env) (ev : Arg → Val → M Val) (root at_ : Val) (f : Bytes) (args : List Arg) : M Val :=
+  match fnKind f with
+  | some k => evalKind env ev root at_ k args
+  | none => stop .unmodelled
 
 /-- `evalArg`: fuel bounds the nesting depth of calls -/
 def eval (env : Env) (root : Val) : Nat → Arg → Val → M Val
